@@ -405,7 +405,7 @@ def main(tier, seed, only=None):
         r3.append(dict(kind="round1", country=c, N=12, herd=["chicken", "meat_cattle", "milk_cattle"]))
         r3.append(dict(kind="round2", country=c, N=12, herd=[]))
     if thorough:
-        r3.append(dict(kind="round3", country="ARG", N=3, herd=["chicken", "pig", "meat_cattle", "milk_cattle"]))
+        pass      # a 4-herd final round does not finish in 25 min even at 2 months (the bump forks ~10 ways per month and herd): the thorough tier adds a country instead
     stubs = STUBS + ["CalculateFeedAndMeat (the herd simulation) replaced by a stub with symbolic monthly slaughter, herd size and feed use; its real get_meat_produced / get_total_milk_bearing_animals run",
                      "interpreted results of rounds 1/2 are namespaces with symbolic series", "food.isinstance accepts SymReal as float", "stdout silenced"]
     groups = [
@@ -418,7 +418,7 @@ def main(tier, seed, only=None):
              outside=["that the stubbed simulation output is what animal_populations.main() produces (C06/C07 decide the month step)", "fat/protein series"]),
         dict(name="feed_charge_of_final_round", fn="worker", cases=r3, replay=replay,
              functions=["Parameters.compute_parameters_third_round", "increase_biofuels_then_feed", "init_meat_and_dairy_and_feed_from_breeding_and_subtract_feed_biofuels_round1", "Food.in_units*", "Food.negative_values_to_zero"],
-             bounds="series of 2 months (thorough 3) for the bump (it forks ~10 ways per month), 12 months for the skipped-round and round-1 cases; countries %s" % countries, symbolic="demand schedules, round-2 feed and biofuel, round-1 crops and stock eaten, herd feed use, slaughter",
+             bounds="series of 2 months for the bump (it forks ~10 ways per month), 12 months for the skipped-round and round-1 cases; countries %s" % countries, symbolic="demand schedules, round-2 feed and biofuel, round-1 crops and stock eaten, herd feed use, slaughter",
              assumptions=["herd feed use <= feed offered (C07)", "round-2 feed/biofuel within demand (C01 ceilings, run-time validator)", "increase_biofuels_then_feed replaced by the contract C18 proves for it (new >= old, new <= demand + 1e-8 if old <= demand); its precondition is an obligation at the real call site"], stubs=stubs,
              outside=["main()'s pandas loading", "the relation between rounds through CBC"]),
     ]
